@@ -17,6 +17,22 @@ func TestVX_C18_SM4Go(t *testing.T) {
 	if err := refs.SelfCheck(true); err != nil {
 		panic("reference self-check failed (harness broken): " + err.Error())
 	}
+	// the tables must equal their derivation when the cipher reads them: tables filled on first use are read here only
+	// after key expansion, both directions of the Go fallback and the exported block entry points have run
+	{
+		key := vx.Fill("c18w-sm4k", 16)
+		blk := vx.Fill("c18w-sm4b", 16)
+		out := make([]byte, 16)
+		if c, err := newCipherGeneric(key); err == nil {
+			c.Encrypt(out, blk)
+			c.Decrypt(out, out)
+		}
+		if c, err := NewCipher(key); err == nil {
+			c.Encrypt(out, blk)
+			c.Decrypt(out, out)
+		}
+		r.Set("workload_calls_before_table_check", 6)
+	}
 	for x := 0; x < 256; x++ {
 		r.Eval(5)
 		if sbox[x] != sm4ref.Sbox(byte(x)) {
